@@ -1,14 +1,14 @@
 """C09 - a connection is reported established only after a valid upgrade response."""
 from hypothesis import strategies as st
 
-from .. import refmodel as rm
+from .. import approute, refmodel as rm
 from .. import simnet
 from ..runner import Obs, exc_bucket, hyp_run
 
 ID = "C09"
 LEVEL = "fault_enumeration"
 RULE = (
-    "case = (api connect|create_connection, offered subprotocols, redirect_limit, chain of 1..6 response heads built from "
+    "case = (api connect|create_connection|WebSocketApp, offered subprotocols, redirect_limit, chain of 1..6 response heads built from "
     "a grammar over status / Upgrade / Connection / Sec-WebSocket-Accept / Sec-WebSocket-Protocol / Location / header "
     "case+order / extra headers, optional fault: EOF or timeout after byte offset k of one response). Every byte offset of "
     "several responses is enumerated. Non-trivial: any field off the canonical valid response, a redirect chain, or a "
@@ -175,6 +175,8 @@ def run_case(case):
             if case["api"] == "connect":
                 ws = websocket.WebSocket()
                 ws.connect("ws://origin.test/start", **opts)
+            elif case["api"] == "app":
+                ws = approute.connect(websocket, "ws://origin.test/start", opts)  # a failed connection is reported to on_error
             else:
                 ws = websocket.create_connection("ws://origin.test/start", timeout=5, **opts)
         except Exception as e:
@@ -322,7 +324,7 @@ def cases(draw):
             r["upgrade"], r["connection"], r["accept"] = None, None, "missing"
         hops.append(r)
     hops.append(draw(final_hop(offered, force_valid=draw(st.integers(0, 2)) == 0)))
-    case = {"api": draw(st.sampled_from(["connect", "create_connection"])), "subprotocols": offered, "redirect_limit": limit, "hops": hops}
+    case = {"api": draw(st.sampled_from(["connect", "create_connection"] + (["app"] if limit is None else []))), "subprotocols": offered, "redirect_limit": limit, "hops": hops}
     if draw(st.integers(0, 5)) == 0:
         case["fault"] = {"hop": draw(st.integers(0, len(hops) - 1)), "at": draw(st.integers(0, 200)),
                          "kind": draw(st.sampled_from(["eof", "timeout"])), "flavour": draw(st.integers(0, 2))}
